@@ -6,6 +6,7 @@ import (
 	"fmt"
 	"io"
 	"strings"
+	"sync"
 	"testing"
 
 	"golang.org/x/crypto/blake2b"
@@ -42,19 +43,36 @@ var (
 
 // newXOF goes through the public constructor; declared == 0 means OutputLengthUnknown.
 func (a c06Alg) newXOF(declared uint32, key []byte) (c06XOF, error) {
+	// the constructor gets the caller's own key buffer, which the caller then reuses
+	// (mode derived from the case): Reset and Clone must keep the original key
+	kb := append([]byte{}, key...)
+	mode := (len(key) + int(declared%7)) % 4
+	defer func() {
+		clobber(kb, mode)
+		if len(key) > 0 {
+			xofKeyMu.Lock()
+			xofKeyClobbers[clobberNames[mode]]++
+			xofKeyMu.Unlock()
+		}
+	}()
 	if a.s {
-		x, err := blake2s.NewXOF(uint16(declared), key)
+		x, err := blake2s.NewXOF(uint16(declared), kb)
 		if err != nil {
 			return nil, err
 		}
 		return x, nil
 	}
-	x, err := blake2b.NewXOF(declared, key)
+	x, err := blake2b.NewXOF(declared, kb)
 	if err != nil {
 		return nil, err
 	}
 	return x, nil
 }
+
+var (
+	xofKeyMu       sync.Mutex
+	xofKeyClobbers = map[string]int{}
+)
 
 func c06Clone(x c06XOF) c06XOF {
 	switch v := x.(type) {
@@ -637,6 +655,63 @@ func TestC06(t *testing.T) {
 	}
 	c.Exhaustive("Clone interleavings: {BLAKE2Xb, BLAKE2Xs} x declared {unknown, 1000, 3*node+5, 12*node} x clone position {0,1,node/2,node-1,node,node+3,2*node-1} x 6 advance orders (source first, clone first, alternating, far ahead, clone of clone, two clones)", nInter)
 
+	// size thresholds: one big Write into the XOF (2^16, 2^17 +- 1) and one big Read (2^16, 2^17, 2^20 +- 1)
+	// after a small first read of 0, 1 or node-1 bytes; known (BLAKE2Xb 2 MiB+5, BLAKE2Xs 65534) and unknown lengths
+	{
+		pool := seqBytes(1<<17 + 512)
+		nBig := 0
+		for _, a := range []c06Alg{c06B, c06S} {
+			decls := []uint32{0, 2<<20 + 5}
+			if a.s {
+				decls = []uint32{0, 65534}
+			}
+			reads := []int{1 << 16, 1<<16 + 1, 1<<16 - 1, 1 << 17, 1<<17 + 1, 1<<17 - 1, 1 << 20}
+			if ev.Thorough() {
+				reads = append(reads, 1<<20+1, 1<<20-1, 3<<16, 1<<15)
+			}
+			for di, declared := range decls {
+				for ri, R := range reads {
+					for r0i, r0 := range []int{0, 1, a.node - 1} {
+						item++
+						if !ev.Mine(item) {
+							continue
+						}
+						msgLen := []int{40, 1 << 16, 1<<16 + 1, 1 << 17, 1<<17 - 1}[(ri+r0i+di)%5]
+						preW := []int{0, 1, 2*a.node - 1}[(ri+2*r0i)%3]
+						key := seqBytes((ri * 5) % (a.maxKey + 1))
+						x, err := a.newXOF(declared, key)
+						if err != nil {
+							c.Violation(fmt.Sprintf("%s NewXOF(%d) failed: %v", a.name, declared, err), "")
+							t.Fatalf("VF-VIOLATION: property=C06 %s NewXOF(%d) failed: %v", a.name, declared, err)
+						}
+						r := &c06Reader{a: a, declared: declared, key: key, x: x}
+						err = r.write(pool[:preW])
+						if err == nil {
+							err = r.write(pool[preW : preW+msgLen])
+						}
+						if err == nil && r0 > 0 {
+							err = r.read(r0)
+						}
+						if err == nil {
+							err = r.read(R)
+						}
+						if err == nil {
+							err = r.read(a.node + 1)
+						}
+						if err != nil {
+							what := fmt.Sprintf("%s declared=%d Write(%d) Write(%d) Read(%d) Read(%d) (size thresholds): %v", a.name, declared, preW, msgLen, r0, R, err)
+							c.Violation(what, "")
+							t.Fatalf("VF-VIOLATION: property=C06 %s", what)
+						}
+						c.Case(true, fmt.Sprintf("big|%s|%d|%d|%d", a.name, declared, R, r0), "bigio:"+a.name, fmt.Sprintf("bigread:size=%d", R), fmt.Sprintf("bigwrite:size=%d", msgLen))
+						nBig++
+					}
+				}
+			}
+		}
+		c.Exhaustive("big single Read {2^16, 2^17 (+-1), 2^20} after a first read of {0,1,node-1} bytes x declared {unknown, large known / 65534} with big single Writes {2^16, 2^17 +-1}", nBig)
+	}
+
 	// concurrency part: separate XOF objects (and clones) driven from several goroutines at once
 	{
 		failure, calls, ks := concPart("C06", ev.Scale(3000, 20000), func(d *drbg, w int) []concJob {
@@ -689,6 +764,11 @@ func TestC06(t *testing.T) {
 		}
 		c.ClassN("concurrency:calls", calls)
 	}
+
+	for k, v := range xofKeyClobbers {
+		c.ClassN("key-buffer:"+k, v)
+	}
+	xofKeyClobbers = map[string]int{}
 
 	// the reference's parameter-block handling against hashlib's tree parameters
 	// (hashlib refuses depth = 0, so the node hashes themselves cannot be replayed there)
